@@ -422,3 +422,19 @@ fn public_from_private(sk: &U256) -> Sm2Result<Sm2PublicKey> {
         Err(Sm2Error::InvalidPublic)
     }
 }
+
+#[cfg(gm_rs_verif)]
+impl Sm2PrivateKey {
+    /// verification builds only: sign a caller-supplied 32-byte digest e
+    pub fn verif_sign_raw(&self, digest: &[u8]) -> Sm2Result<Vec<u8>> {
+        self.sign_raw(digest, &self.d)
+    }
+}
+
+#[cfg(gm_rs_verif)]
+impl Sm2PublicKey {
+    /// verification builds only: verify against a caller-supplied 32-byte digest e
+    pub fn verif_verify_raw(&self, digest: &[u8], sig: &[u8]) -> Sm2Result<()> {
+        self.verify_raw(digest, &self.point, sig)
+    }
+}
